@@ -130,8 +130,21 @@ fn check_spline<T: Comp>(n: usize, seed: usize, r: &mut Report) {
     for t in tl {
         r.eval();
         let (e, tg) = match caught(|| (s.eval(t), s.tangent(t))) { Ok(x) => x, Err(p) => { r.violation(key("spline-panic", t), format!("spline eval/tangent panicked at t={t}: {p}"), case(t)); continue; } };
-        let _ = tg;
         if t.is_nan() { continue; }
+        // the spline's tangent is that of the owning cubic at the local parameter (clamped at the ends of the curve); next to
+        // an interior join, where rounding may select either neighbour and the curve need not be smooth, it is not judged
+        {
+            let x = (t as f64 * n as f64).clamp(0.0, n as f64);
+            let k = (x.floor() as usize).min(n - 1);
+            let l = x - k as f64;
+            let near_join = t > 0.0 && t < 1.0 && (l < 1e-4 || l > 1.0 - 1e-4) && k as f64 + l > 1e-4 && (k as f64 + l) < n as f64 - 1e-4;
+            if !near_join {
+                let want = dbern(&[pf[3 * k].clone(), pf[3 * k + 1].clone(), pf[3 * k + 2].clone(), pf[3 * k + 3].clone()], l);
+                let d = maxdiff(&T::dcomps(&tg), &want);
+                r.margin("spline-tangent", d, 10.0 * tol);
+                if d > 10.0 * tol { r.violation(key("spline-tangent", t), format!("tangent({t}) = {:?}, the owning cubic (segment {k}, local parameter {l}) has derivative {want:?}", T::dcomps(&tg)), case(t)); }
+            }
+        }
         if t <= 0.0 || t >= 1.0 {
             let want = if t <= 0.0 { &pts[0] } else { &pts[3 * n] };
             if &e != want { r.violation(key("spline-ends", t), format!("eval({t}) = {e:?}, expected end control point {want:?} exactly"), case(t)); }
